@@ -620,7 +620,11 @@ inline bool mpHeaderByte(unsigned c) {
 inline void run(Ctx& C) {
   const bool T = C.thorough();
   auto optI = [&](const char* name, int dflt) { return atoi(C.opt(name, std::to_string(dflt)).c_str()); };
-  // per-job budget (the driver's deadline is shared by the jobs of a property; each configuration gets its own share)
+  // per-job budget: the driver's deadline is shared by the jobs of a property, which run one after the other, and each
+  // job is handed what is left of it.  --share=f lets this job use at most the fraction f of what is left (so that the
+  // configurations that run first cannot starve the last one); --budget=s is an absolute cap in seconds.
+  double share = atof(C.opt("share", "0").c_str());
+  if (share > 0 && C.deadline > 0) C.deadline *= share;
   double budget = atof(C.opt("budget", "0").c_str());
   if (budget > 0 && (C.deadline <= 0 || budget < C.deadline)) C.deadline = budget;
 
@@ -631,8 +635,8 @@ inline void run(Ctx& C) {
   const int mpStar = std::max(mpFull, optI("mp-star", mpFull));  // star (all strings) up to this length
   const int mpStar3 = optI("mp-star3", T ? 1 : 0);       // 1: star on header-led 3-byte strings, 2: on all 2^24
   const int mpRam3 = optI("mp-ram3", T ? 2 : 1);         // kind sized on 3-byte strings: 1 header-led, 2 all 2^24
-  const int mpRam4 = optI("mp-ram4", T ? 1 : 0);         // kind sized on header-led 4-byte strings (deepest level)
-  const int corpusMax = optI("corpus-max", T ? 4096 : 256);
+  const int mpRam4 = optI("mp-ram4", 0);                // kind sized on header-led 4-byte strings (deepest level)
+  const int corpusMax = optI("corpus-max", T ? 1024 : 256);
   const int corpusFull = optI("corpus-full", T ? 64 : 24);
   const int corpusStar = optI("corpus-star", T ? 256 : 64);
   const int corpusFullMp = optI("corpus-full-mp", corpusFull);  // same threshold for MessagePack items (a build option that
